@@ -161,8 +161,11 @@ def rule_P1(F, R):
                 cmp_b = None
                 for (a, o, bb_) in p.atoms:
                     # only atoms decided before the first write
-                    if any(e["id"] >= first and e["bb"] == bb_ for e in p.events):
-                        pass
+                    # (a test on a value read by a call made after the write says nothing about the guard)
+                    ids_ = []
+                    _has(a, lambda z: z[0] == "C" and isinstance(z[1], int) and ids_.append(z[1]))
+                    if ids_ and min(ids_) > first:
+                        continue
                     t = _is_nil_test(a, o)
                     if t is not None:
                         nil_b = t
@@ -173,7 +176,10 @@ def rule_P1(F, R):
                     R.violation("P1", b["owner_fn"], "write-unguarded", "%s: a version is written on a path where neither `no latest version` nor `parent == latest` was established (%s)" % (be, conds or "no test at all"), w)
                 else:
                     acc += 1
-            isrej = p.ret[0] == "A" and p.ret[2] == "Ok" and _has(p.ret, lambda z: z[0] == "A" and z[1].endswith("AddVersionResult") and z[2] == "ExpectedParentVersion")
+            def packaged(z):
+                # the rejection packaged by a helper of the backend that builds nothing else
+                return z[0] == "C" and len(z) > 3 and isinstance(z[2], str) and _avr_helper_variants(F, z[2]) == {"ExpectedParentVersion"}
+            isrej = p.ret[0] == "A" and p.ret[2] == "Ok" and _has(p.ret, lambda z: (z[0] == "A" and z[1].endswith("AddVersionResult") and z[2] == "ExpectedParentVersion") or packaged(z))
             if isrej:
                 payload = None
 
@@ -182,6 +188,11 @@ def rule_P1(F, R):
                 holder = []
                 _has(p.ret, lambda z: grab(z) and holder.append(z))
                 payload = holder[0][3][0][1] if holder else None
+                if not holder:
+                    ph = []
+                    _has(p.ret, lambda z: packaged(z) and ph.append(z))
+                    # what the helper can name is what it is given: its arguments stand for the payload
+                    payload = ph[0][3] if ph else None
                 if payload is None or _has(payload, lambda z: z == PARENT):
                     R.violation("P1", b["owner_fn"], "rejection-names-request-parent", "%s: the rejection names %s instead of the stored latest version" % (be, show(payload) if payload else "?"), w)
                     continue
@@ -1103,6 +1114,20 @@ def rule_P5(F, R):
         R.ok("P5", "LocalServer fields: %s" % [f["name"] for f in a["variants"][0]["fields"]], loc(a["sp"]))
 
 
+def _avr_helper_variants(F, callee):
+    """AddVersionResult variants constructed by a crate-local helper of the git backend (a helper that only packages
+    the answer, e.g. `fn expected_parent_version(&self) -> (AddVersionResult, SnapshotUrgency)`)"""
+    hb = F.bodies.get(callee) or F.bodies.get(re.sub(r"::<[^>]*>", "", callee or ""))
+    if hb is None or "gitsync" not in (callee or "") or not hb.get("blocks"):
+        return set()
+    out = set()
+    for bl in hb["blocks"]:
+        for st in bl["s"]:
+            if st["k"] == "assign" and st["r"]["k"] == "agg" and str(st["r"].get("adt", "")).endswith("AddVersionResult"):
+                out.add(st["r"]["variant"])
+    return out
+
+
 def rule_GC6(F, R):
     R.begin("GC6", "git backend: a rejection (ExpectedParentVersion) names the latest version of the shared remote, not of this clone's cache: every rejection in add_version is preceded by a fetch of the remote and a reload of the metadata. A rejection from the cache alone refuses a version whose parent is the true latest (pushed by another clone) and names a stale id")
     ms = impl_methods(F)
@@ -1114,6 +1139,10 @@ def rule_GC6(F, R):
     fetchers = {roles.norm(x) for x in roles.git_cmd_fns(F, "fetch")}
     fetch_calls = [i for i, t in c.calls() if any(_cone_has(F, n_, fetchers) for n_ in call_names(t))]
     sites = agg_sites(c, "AddVersionResult", "ExpectedParentVersion")
+    # the answer may be packaged by a helper: its call site stands for the construction
+    for (i_, t_) in c.calls():
+        if any(_avr_helper_variants(F, n_) == {"ExpectedParentVersion"} for n_ in call_names(t_)):
+            sites.append((i_, 0, {"sp": t_["sp"]}))
     if not R.floor("GC6", "ExpectedParentVersion constructions in git add_version", len(sites), 1):
         return
     for (i, j, st) in sites:
@@ -1136,9 +1165,16 @@ def rule_GS2(F, R):
         return
     SINK = re.compile(r"^std::fs::write$|^serde_json::(ser::)?to_writer|std::io::Write::write_all$")
     n = 0
-    for (be, name), b in sorted(ms.items()):
-        if be != "git":
-            continue
+    # every function of the git backend that seals: the Server methods and the helpers they delegate the sealing to
+    subjects = [(name, b) for (be, name), b in sorted(ms.items()) if be == "git"]
+    have = {b["path"] for (_n, b) in subjects}
+    for p_, b_ in sorted(F.bodies.items()):
+        if "gitsync" in p_ and b_["kind"] in ("AssocFn", "Fn") and F.owner(p_) == p_:
+            rb_ = F.real_body(p_) or b_
+            if rb_["path"] not in have and any(any(x.endswith("Cryptor::seal") for x in call_names(t)) for (_i, t) in cfg_of(rb_).calls()):
+                subjects.append((p_.split("::")[-1], rb_))
+                have.add(rb_["path"])
+    for (name, b) in subjects:
         c = cfg_of(b)
         fl = flow_of(b)
         seals = [(i, t) for (i, t) in c.calls() if any(x.endswith("Cryptor::seal") for x in call_names(t))]
@@ -1158,7 +1194,7 @@ def rule_GS2(F, R):
                 R.violation("GS2", b["owner_fn"], "sealed-before-key-reload", "%s seals a value at %s, then reloads the metadata at %s (which re-derives the key when the remote's salt differs) and writes the value sealed under the old key at %s: nobody holding the stored salt can open it" % (name, loc(stt["sp"]), loc(c.term(bad[0])["sp"]), loc(c.term(bad[1])["sp"])), where(b, si))
             else:
                 R.ok("GS2", "%s: nothing reloads the key between sealing and writing" % name, where(b, si))
-    R.floor("GS2", "seal sites directly in the git backend's Server methods", n, 1)
+    R.floor("GS2", "seal sites in the git backend (Server methods and their helpers)", n, 1)
 
 
 def rule_GK1(F, R):
